@@ -2270,7 +2270,8 @@ class UpdateRisk(Algo):
 
         target.risk[self.measure] = risk
         if depth < self.history:
-            target.risks.loc[target.now, self.measure] = risk
+            # a security that has not traded keeps a stale clock of its own
+            target.risks.loc[target.root.now, self.measure] = risk
 
     def __call__(self, target):
         unit_risk_frame = target.get_data("unit_risk")[self.measure]
